@@ -1928,6 +1928,7 @@ def pmap_nondaemon(fn, cases, tally, jobs, chunk=20, timeout=900):
             if time.time() > deadline or not any(p.is_alive() for p in procs):
                 break
             continue
+        deadline = time.time() + timeout  # the deadline bounds the time WITHOUT PROGRESS (a hang), not the total, which depends on the machine load
         if ci == "done":
             done += 1
         else:
@@ -1940,7 +1941,7 @@ def pmap_nondaemon(fn, cases, tally, jobs, chunk=20, timeout=900):
         tally.merge(results[ci])
     missing = [ci for ci, _ in all_chunks if ci not in results]
     if missing:
-        tally.violation({"invariant": "harness-timeout"}, all_chunks[missing[0]][1][0], f"{len(missing)} chunks of process-parallel cases did not report within {timeout}s")
+        tally.violation({"invariant": "harness-timeout"}, all_chunks[missing[0]][1][0], f"{len(missing)} chunks of process-parallel cases did not report: no progress for {timeout}s")
 
 
 def _uses_processes(case):
